@@ -5,5 +5,6 @@ import CnbVerif.Props.C04
 #print axioms CnbVerif.C04.unknown_process_is_all
 #print axioms CnbVerif.C04.insert_order_irrelevant
 #print axioms CnbVerif.C04.insert_order_irrelevant_structural
+#print axioms CnbVerif.C04.queries_between_inserts_irrelevant
 #print axioms CnbVerif.C04.default_keeps_empty_string
 #print axioms CnbVerif.C04.append_to_empty_has_no_delimiter
